@@ -1,7 +1,7 @@
 (* C05 - including a file is the same as typing its lines in place. Statements only. *)
 From Coq Require Import String Permutation.
 From Verif Require Import Base.Str Base.Lines Base.Outcome Regex.Re Regex.Equiv Model.Patterns Model.ParseLine Model.Passes Model.CmdLine Model.Parser Model.Assembler Model.Generate.
-From Verif Require Import Proofs.EquivSound Proofs.PassesProofs Proofs.CmdLineProofs Proofs.ParserProofs Proofs.AssemblerProofs.
+From Verif Require Import Proofs.EquivSound Proofs.PassesProofs Proofs.CmdLineProofs Proofs.ParserProofs Proofs.IncludeInlineProofs Proofs.AssemblerProofs.
 From Verif Require Tie.Pin_lits_regex_parser_parser_Parser_Parse Tie.Pin_lits_regex_parser_parser_Parser_parseLine Tie.Pin_lits_regex_parser_parser_parseFile Tie.Pin_lits_regex_parser_parser_mergePrefixesSuffixes Tie.Pin_lits_regex_parser_include_except_builder_buildIncludeString.
 Open Scope N_scope.
 
@@ -43,3 +43,39 @@ Theorem C05_equivalence_oracle_sound :
 Proof. exact equivalent_sound. Qed.
 Print Assumptions C05_equivalence_oracle_sound.
 
+(* THE WHOLE PARSER AND THE WHOLE COMMAND, for word-list include files: for every including file,
+   every position of the include line (the parser does not know blocks, so also inside assemble /
+   cmdline blocks), every state of the includer (definitions made before or after, flags,
+   prefixes, suffixes), every iteration order of the maps and every include file that consists of
+   entries, comments and blank lines: generate of the file with the include line IS generate of
+   the file with the lines of the include file typed in its place - the same expression, the same
+   error.  (Include files with their own definitions / prefixes / suffixes / nested includes:
+   the lemmas above and the by-hand inlining oracle per case.) *)
+Theorem C05_wordlist_include_is_typing_its_lines_partial :
+  forall ordp ords ords2 ordi limit fs join cfg limit_asm pre line post pl c contents1 contents2,
+  parse_line ordp (trim_left is_blank line) = Ok pl -> pl_type pl = LInclude -> pl_pairs pl = None ->
+  lookup_file fs (pl_file pl) = Some c -> Forall (simple_line ordp) (scan_lines limit c) ->
+  scan_lines limit contents1 = pre ++ [line] ++ post ->
+  scan_lines limit contents2 = pre ++ scan_lines limit c ++ post ->
+  generate join cfg ordp ords ords2 ordi limit limit_asm fs contents1 =
+  generate join cfg ordp ords ords2 ordi limit limit_asm fs contents2.
+Proof. intros. eapply generate_include_wordlist_inline; eauto. Qed.
+Print Assumptions C05_wordlist_include_is_typing_its_lines_partial.
+
+Theorem C05_wordlist_include_example :
+  exists pl c,
+    parse_line all_pnames (trim_left is_blank $"  ##!> include words") = Ok pl /\ pl_type pl = LInclude /\ pl_pairs pl = None /\
+    lookup_file ex_fs (pl_file pl) = Some c /\ Forall (simple_line all_pnames) (scan_lines 65536 c) /\
+    scan_lines 65536 $"a
+  ##!> include words
+b
+" = [$"a"] ++ [$"  ##!> include words"] ++ [$"b"] /\
+    scan_lines 65536 $"a
+ls
+  cat
+##! a comment
+
+b
+" = [$"a"] ++ scan_lines 65536 c ++ [$"b"].
+Proof. exact include_wordlist_example. Qed.
+Print Assumptions C05_wordlist_include_example.
